@@ -432,6 +432,7 @@ type Contracts struct {
 	Preds    map[string]*Pred
 	GhostFields map[string]map[string]string // type key (short) -> field -> kind
 	Regexes  []*RegexSpec
+	Shared   []*SharedDecl
 }
 
 // Pred is a named spec macro: pred Name(p *T, x int) = expr
@@ -507,7 +508,7 @@ func (cs *Contracts) parseContractText(pkgPath, file string, text string, baseLi
 			items = append(items, item{baseLine + i, t})
 			continue
 		}
-		isHeader := first == "func" || first == "regex" || first == "invariant" || first == "ghostvar" || first == "ghostfield" || first == "alias" || (first == "assume" && strings.HasPrefix(t, "assume func")) ||
+		isHeader := first == "func" || first == "regex" || first == "shared" || first == "invariant" || first == "ghostvar" || first == "ghostfield" || first == "alias" || (first == "assume" && strings.HasPrefix(t, "assume func")) ||
 			(first == "pure" && strings.HasPrefix(t, "pure func")) || (first == "assume" && strings.HasPrefix(t, "assume pure func"))
 		if isHeader || clauseKeywords[first] {
 			items = append(items, item{baseLine + i, t})
@@ -550,6 +551,19 @@ func (cs *Contracts) parseContractText(pkgPath, file string, text string, baseLi
 			}
 			pd.Body = e
 			cs.Preds[pd.Name] = pd
+			cur, curInv = nil, nil
+		case first == "shared":
+			// shared pkg.Var "why"
+			f := strings.Fields(t)
+			if len(f) < 3 {
+				errf("shared pkg.Var \"justification\"")
+				continue
+			}
+			why := strings.TrimSpace(t[strings.Index(t, f[1])+len(f[1]):])
+			if uq, err := strconv.Unquote(why); err == nil {
+				why = uq
+			}
+			cs.Shared = append(cs.Shared, &SharedDecl{Var: f[1], Why: why, File: file, Line: it.line})
 			cur, curInv = nil, nil
 		case first == "regex":
 			// regex Var [tags] language "<pattern>" prefix-free nonempty
